@@ -149,8 +149,24 @@ def may_obj(fi, expr, at, depth=0, seen=None):
                 k = may_obj(fi, it, lp, depth + 1, seen)
                 if k == "attribute value": return "element of an attribute value"
     return None
+def _expand_consts(atom, use):
+    """the atom with module-level names bound to a tuple/list of names written out (attr.mult in _MULT_MANY -> attr.mult in (MULT_ONEORMORE, MULT_ZEROORMORE))"""
+    mod = use
+    while mod is not None and not isinstance(mod, ast.Module): mod = getattr(mod, "_parent", None)
+    if mod is None: return atom
+    try: t = ast.parse(atom, mode="eval")
+    except SyntaxError: return atom
+    tab = {}
+    for st in mod.body:
+        if isinstance(st, ast.Assign) and len(st.targets) == 1 and isinstance(st.targets[0], ast.Name) and isinstance(st.value, (ast.Tuple, ast.List)) and st.value.elts and all(isinstance(x, ast.Name) for x in st.value.elts):
+            tab[st.targets[0].id] = st.value
+    if not tab: return atom
+    class X(ast.NodeTransformer):
+        def visit_Name(s_, n): return tab.get(n.id, n)
+    return ast.unparse(X().visit(t))
 def _list_proof(fi, use):
     for a, pol in fi.atoms_at(use):
+        a = _expand_consts(a, use)
         u = a.replace(" ", "")
         if ".multin" in u.replace("_", "").lower() or ".multin" in u:
             many = "MULT_ZEROORMORE" in u or "MULT_ONEORMORE" in u; one = "MULT_ONE," in u or "MULT_OPTIONAL" in u
@@ -618,49 +634,68 @@ RECORDS = [   # (file, class, properties): plain records whose constructor store
 ]
 ERR_SUBCLASSES = ("TextXSemanticError", "TextXSyntaxError")
 def r_records(root):
-    """record classes: `self.<p> = <p>` for every constructor parameter, the value being the parameter itself (not converted,
-    clamped, normalised or defaulted away); exception subclasses hand every location field they accept to the base
-    constructor in the base's order / under the base's names."""
+    """record classes, decided by evaluation of the constructor (sa/pyeval.py): for every constructor parameter p the object
+    built from distinct sample values has  obj.p is <the value given for p>  - not converted, clamped, normalised, defaulted
+    away or stored under another parameter's name; the value sets include 0, '', None, negative numbers and plain objects.
+    Exception subclasses hand every location field they accept to the base constructor in the base's order / under the
+    base's names (evaluated too: the subclass object has every field it was given)."""
+    from sa import pyeval
     out = []; inst = 0
+    def build(rel, cname, values):
+        t = load(root, rel); cds = {c.name: c for c in t.body if isinstance(c, ast.ClassDef)}
+        env = {"__classdefs__": cds, "__functions__": {n.name: n for n in t.body if isinstance(n, ast.FunctionDef)}, "__module__": t}
+        for c_ in cds: env[c_] = pyeval.ClassRef(c_)
+        try: return "ret", pyeval.instantiate(cname, [], dict(values), env)
+        except pyeval.Raised as r_: return "raise", r_.cls
+        except pyeval.Unsupported as u_: raise AnalysisError("%s.__init__: outside the evaluated subset: %s" % (cname, u_))
+    def value_sets(params):
+        yield "distinct objects", {p_: {".kind": "value given for " + p_} for p_ in params}
+        yield "0", {p_: 0 for p_ in params}
+        yield "the empty string", {p_: "" for p_ in params}
+        yield "None", {p_: None for p_ in params}
+        yield "negative numbers", {p_: -(i_ + 1) for i_, p_ in enumerate(params)}
+        yield "distinct strings", {p_: "text of " + p_ for p_ in params}
     for rel, cname, ps in RECORDS:
         cls = find(load(root, rel), cname); init = next((f for f in cls.body if isinstance(f, ast.FunctionDef) and f.name == "__init__"), None)
         if init is None: raise AnalysisError("%s.__init__ not found" % cname)
-        fi = sem.info(init)
         params = [a.arg for a in init.args.args[1:] + init.args.kwonlyargs]
+        if len(params) < 3: raise AnalysisError("%s.__init__: only %d parameters" % (cname, len(params)))
+        bad = {}
+        for what, vals in value_sets(params):
+            k_, o_ = build(rel, cname, vals)
+            for p_ in params:
+                if p_ in bad: continue
+                if k_ != "ret": bad[p_] = ("%s(...) with %s for every parameter" % (cname, what), "the constructor raises %s" % o_)
+                elif ("." + p_) not in o_: bad[p_] = ("self.%s" % p_, "the constructor parameter %s is not stored" % p_)
+                elif o_["." + p_] is not vals[p_] and not (isinstance(vals[p_], (int, str)) and type(o_["." + p_]) is type(vals[p_]) and o_["." + p_] == vals[p_]):
+                    bad[p_] = ("self.%s" % p_, "%s.%s is not the value the constructor was given (given %s for every parameter: %r is stored as %r)" % (cname, p_, what, vals[p_], o_["." + p_] if not isinstance(o_["." + p_], dict) else o_["." + p_].get(".kind")))
         for p_ in params:
-            stores = [n for n in own_nodes(init) if isinstance(n, ast.Assign) and any(isinstance(tg, ast.Attribute) and isinstance(tg.value, ast.Name) and tg.value.id == "self" and tg.attr == p_ for tg in n.targets)]
-            inst += 1; bad = None
-            if not stores: bad = ("self.%s" % p_, "the constructor parameter %s is not stored" % p_)
-            for st in stores:
-                v = fi.expand(st.value, at=st)
-                nd = fi.node_of(st)
-                if not (isinstance(v, ast.Name) and v.id == p_): bad = (" ".join(ast.unparse(st).split())[:90], "%s.%s is not the value the constructor was given (%s)" % (cname, p_, ast.unparse(v)[:50]))
-                elif nd is not None and any(fi.cfg.nodes[d].kind != "entry" for d in fi.rd.defs_of(nd, p_)): bad = (" ".join(ast.unparse(st).split())[:90], "the parameter %s is re-bound before it is stored" % p_)
-                elif fi.atoms_at(st): bad = (" ".join(ast.unparse(st).split())[:90], "%s.%s is stored only under a condition" % (cname, p_))
-            for pr in ps: ob(pr, pr + ".V", rel, cname + ".__init__", "self.%s = %s" % (p_, p_), bad is None)
-            if bad:
-                for pr in ps: out.append(Finding(pr, pr + ".V", rel, cname + ".__init__", bad[0], bad[1] + ": every reader of the record (resolver, error reporting, tool support) sees a value that differs from what the producer computed", witness="a value for which the conversion is not the identity (a non-string name, a span longer than the name, a symlinked path)"))
-    # exception subclasses forward the location fields
+            inst += 1
+            for pr in ps: ob(pr, pr + ".V", rel, cname + ".__init__", "obj.%s is the value given for %s (6 value sets)" % (p_, p_), p_ not in bad)
+            if p_ in bad:
+                for pr in ps: out.append(Finding(pr, pr + ".V", rel, cname + ".__init__", bad[p_][0], bad[p_][1] + ": every reader of the record (resolver, error reporting, tool support) sees a value that differs from what the producer computed", witness="a value for which the conversion is not the identity"))
+    # exception subclasses forward the location fields (by evaluation of the subclass constructor)
     t = load(root, "textx/exceptions.py"); base = find(t, "TextXError"); binit = next(f for f in base.body if isinstance(f, ast.FunctionDef) and f.name == "__init__")
     border = [a.arg for a in binit.args.args[1:]]
     for sub in ERR_SUBCLASSES:
         cls = find(t, sub); init = next((f for f in cls.body if isinstance(f, ast.FunctionDef) and f.name == "__init__"), None)
         if init is None: continue
-        sup = [c for c in calls(init, own=True) if isinstance(c.func, ast.Attribute) and c.func.attr == "__init__" and "super" in ast.unparse(c.func.value)]
-        if len(sup) != 1: raise AnalysisError("%s.__init__: base constructor call not found" % sub)
-        c = sup[0]; given = {}
-        for k, a in enumerate(c.args):
-            if k < len(border): given[border[k]] = a
-        for kw in c.keywords:
-            if kw.arg: given[kw.arg] = kw.value
         own = [a.arg for a in init.args.args[1:] + init.args.kwonlyargs]
+        bad = {}
+        for what, vals in value_sets(own):
+            k_, o_ = build("textx/exceptions.py", sub, vals)
+            for f_ in border:
+                if f_ not in own or f_ in bad: continue
+                if k_ != "ret": bad[f_] = "the constructor raises %s (given %s for every parameter)" % (o_, what)
+                elif o_.get("." + f_, base) is not vals[f_] and not (isinstance(vals[f_], (int, str)) and type(o_.get("." + f_)) is type(vals[f_]) and o_.get("." + f_) == vals[f_]):
+                    got_ = o_.get("." + f_, "<not set>"); bad[f_] = "given %s for every parameter, the error's %s is %r" % (what, f_, got_.get(".kind") if isinstance(got_, dict) else got_)
         for f_ in border:
             if f_ not in own: continue
             inst += 1
-            okf = f_ in given and isinstance(given[f_], ast.Name) and given[f_].id == f_
-            for pr in ("C28", "C33", "C23"): ob(pr, pr + ".V", "textx/exceptions.py", sub + ".__init__", "base constructor receives %s=%s" % (f_, f_), okf)
+            okf = f_ not in bad
+            for pr in ("C28", "C33", "C23"): ob(pr, pr + ".V", "textx/exceptions.py", sub + ".__init__", "the %s given to %s is the error's %s" % (f_, sub, f_), okf)
             if not okf:
-                for pr in ("C28", "C33", "C23"): out.append(Finding(pr, pr + ".V", "textx/exceptions.py", sub + ".__init__", " ".join(ast.unparse(c).split())[:100], "%s accepts %s but hands %s to the base constructor for it: the field is lost or lands in another field of the error" % (sub, f_, ast.unparse(given[f_]) if f_ in given else "nothing"), witness="raise %s(msg, line=1, col=2, nchar=3, filename='f')" % sub))
+                for pr in ("C28", "C33", "C23"): out.append(Finding(pr, pr + ".V", "textx/exceptions.py", sub + ".__init__", "super().__init__(...) / %s" % f_, "%s accepts %s but %s: the field is lost or lands in another field of the error" % (sub, f_, bad[f_])))
     return inst, out
 # ---------------------------------------------------------------------------------------------------------------- .F
 PARAM_PROPS = {"encoding": ("C28", "C17"), "ignore_case": ("C20",), "autokwd": ("C21",), "skipws": ("C22",), "ws": ("C22",), "memoization": ("C19",), "model_params": ("C27",),
